@@ -27,7 +27,7 @@ TRANSIENT = ('timeout', 'runtime')
 
 
 class Call:
-    __slots__ = ('no', 'ind_id', 'obj', 'vector', 'outcome', 'task', 'attempt', 'ref')
+    __slots__ = ('no', 'ind_id', 'obj', 'vector', 'outcome', 'task', 'attempt', 'ref', 'draws')
 
     def __init__(self, no, ind_id, obj, vector, outcome, task, attempt, ref):
         self.no = no
@@ -38,6 +38,7 @@ class Call:
         self.task = task
         self.attempt = attempt
         self.ref = ref       # keeps the individual alive so that id() stays unique
+        self.draws = seams.RNG.draws if seams.RNG is not None else 0
 
 
 class World:
